@@ -124,11 +124,11 @@ func (h *connectHandler) NewConn(
 	// send the error to the client later on.
 	var contentEncoding, acceptEncoding string
 	if h.Spec.StreamType == StreamTypeUnary {
-		contentEncoding = request.Header.Get(connectUnaryHeaderCompression)
-		acceptEncoding = request.Header.Get(connectUnaryHeaderAcceptCompression)
+		contentEncoding = headerList(request.Header, connectUnaryHeaderCompression)
+		acceptEncoding = headerList(request.Header, connectUnaryHeaderAcceptCompression)
 	} else {
-		contentEncoding = request.Header.Get(connectStreamingHeaderCompression)
-		acceptEncoding = request.Header.Get(connectStreamingHeaderAcceptCompression)
+		contentEncoding = headerList(request.Header, connectStreamingHeaderCompression)
+		acceptEncoding = headerList(request.Header, connectStreamingHeaderAcceptCompression)
 	}
 	requestCompression, responseCompression, failed := negotiateCompression(
 		h.CompressionPools,
